@@ -183,13 +183,18 @@ pub struct ExecOutcome {
 
 /// Whole-program execution through `Vm::exec_ops` (or `exec_bytecode`).
 pub fn run_exec(case: &ExecCase, bytecode: bool) -> Result<ExecOutcome, Violation> {
+    run_exec_logged(case, bytecode, None)
+}
+
+/// Same, with the state views recording every request into `log`.
+pub fn run_exec_logged(case: &ExecCase, bytecode: bool, log: Option<Arc<crate::doubles::Log>>) -> Result<ExecOutcome, Violation> {
     let Some(mut vm) = make_vm(&case.init) else {
         return Err(viol!("harness:unreachable-init", "initial state not constructible: {:?}", case.init));
     };
     let ops = to_real_ops(&case.prog);
     let sols = Arc::new(to_real_solutions(&case.solutions));
     let access = Access::new(sols, case.index as u16);
-    let views = Views::from_spec(&case.state, None);
+    let views = Views::from_spec(&case.state, log);
     let gas = AuditGas::new(case.costs.clone());
     let limit = GasLimit {
         per_yield: GasLimit::DEFAULT_PER_YIELD,
